@@ -126,6 +126,19 @@ class PropBase:
 
     def replay(self, rep, run, obj, driver_ok):
         ops = obj.get("ops")
+        if obj.get("cli_args") is not None:
+            # found through the built binary: run it again on the same lines with the same options and show its last screen
+            lines = obj.get("frames") or [bytes.fromhex(o.split(" ", 1)[1]) for o in (ops or []) if o.startswith("line ") and len(o) > 5]
+            try:
+                rc, screens, err = core.cli_screens(core.build_cli(False), obj["cli_args"], lines, run.dir)
+                print(f"squitterator {' '.join(obj['cli_args'])}: exit status {rc}; last screen:")
+                print("\n".join(screens[-1]) if screens else "(nothing printed)")
+                if err.strip():
+                    print("stderr: " + err.strip()[-500:])
+            except Exception as e:          # showing the screen is a convenience of the replay, not a judgement
+                print("could not run the binary: %s" % e)
+        if not ops and obj.get("cli_args") is not None:
+            return
         if not ops:
             print("replay file names a broken obligation and carries no input:")
             print(obj)
